@@ -80,7 +80,11 @@ Apply(pp, l) ==
     \* SDO write to 1017h: the period restarts from the write, 0 stops the producer
     [] l[1] = "hbwr" -> IF ~SdoOK(pp.mode) THEN [ev |-> WrFrame(4119, 0, <<l[2], 0>>), p |-> pp, x |-> <<CanRx(SdoRx)>>]
                         ELSE [ev |-> WrFrame(4119, 0, <<l[2], 0>>), p |-> [pp EXCEPT !.hbT = l[2], !.hbRem = l[2]], x |-> <<WrOk(4119, 0)>>]
-    [] l[1] = "pool" -> [ev |-> <<"pool">>, p |-> pp, x |-> << <<"acts", PoolN - ArmedP(pp)>> >>]
+    \* (PDO timers that were running when the node left OPERATIONAL keep running in the implementation without effect; how long
+    \* they occupy their slots is not modelled: the occupancy is not asserted in that situation)
+    [] l[1] = "pool" -> [ev |-> <<"pool">>, p |-> pp,
+                         x |-> IF pp.mode # OPER /\ (\E k \in 1..NT : pp.td[k].inhRem > 0 \/ pp.td[k].evRem > 0) THEN << <<"free">> >>
+                               ELSE << <<"acts", PoolN - ArmedP(pp)>> >>]
     [] l[1] = "rd" -> LET o == l[2] IN
                       [ev |-> RdFrame(Objs[o].idx, Objs[o].sub), p |-> pp, x |-> IF SdoOK(pp.mode) THEN <<RdResp(Objs[o].idx, Objs[o].sub, pp.v[o])>> ELSE <<CanRx(SdoRx)>>]
 Hb0 == IF Len(Sync0) >= 4 THEN Sync0[4] ELSE 0        \* heartbeat producer time in ticks (optional 4th element of Sync0)
@@ -119,6 +123,10 @@ Do(l) == LET a == Apply(p, l) IN
 Init == p = P0 /\ hist = <<>> /\ prev = <<>> /\ gh = TRUE
 Next == \E l \in Letters : Do(l)
 InvPdo == gh
+\* long inhibit / event times (the 16-bit value range of 18xxh:3 / 18xxh:5) are in some alphabets: their countdowns are followed
+\* for the first ticks only
+BoundP == \A k \in 1..NT : /\ (p.td[k].evRem <= 8 \/ p.td[k].evRem >= p.ta[k].evT - 2)
+                            /\ (p.td[k].inhRem <= 8 \/ p.td[k].inhRem >= p.ta[k].inhT - 2)
 RECURSIVE RunLetters(_, _, _)
 RunLetters(pp, ls, acc) ==
   IF ls = <<>> THEN acc
